@@ -148,6 +148,19 @@ def main(outpath):
     items += mb
     eb, _ = consts_of("ports/sink/event_buffer.rs", ["DEFAULT_CAPACITY"], prefix="EVENTBUFFER_")
     items += eb
+    # shape of the tearable time cell (time/monotonic_time.rs uses std atomics directly and cannot be
+    # mirrored): secs then nanos, all Relaxed, for both the load and the store
+    mt = open(os.path.join(SRC, "time/monotonic_time.rs")).read()
+    import re as _re
+    m1 = _re.search(r"fn tearable_load\(&self\)[^{]*\{(.*?)\n    \}", mt, _re.S)
+    m2 = _re.search(r"fn tearable_store\(&self,[^{]*\{(.*?)\n    \}", mt, _re.S)
+    if not m1 or not m2:
+        raise Refuse("time/monotonic_time.rs: tearable_load/tearable_store not found")
+    ld = _re.findall(r"self\.(secs|nanos)\.load\(Ordering::(\w+)\)", m1.group(1))
+    st = _re.findall(r"self\.(secs|nanos)\.store\([^;]*?Ordering::(\w+)\)", m2.group(1))
+    if ld != [("secs", "Relaxed"), ("nanos", "Relaxed")] or st != [("secs", "Relaxed"), ("nanos", "Relaxed")]:
+        raise Refuse("time/monotonic_time.rs: tearable load/store shape changed: %r %r" % (ld, st))
+    items.append(("MT_TEARABLE_HALVES", 2, "time/monotonic_time.rs", "secs then nanos, Relaxed loads/stores"))
     lines = ["(* GENERATED by tools/gen_consts.py from %s -- do not edit. *)" % SRC,
              "From Coq Require Import NArith.", "Open Scope N_scope.", ""]
     for name, val, path, expr in items:
